@@ -13,7 +13,7 @@ CFG = dict(
     kinds={"seq": ("seq_case", "check_seq"), "conc": ("conc_case", "check_conc"), "mixed": ("mixed_case", "check_mixed"), "trav": ("trav_case", "check_trav")},
     known_classes={0: "concurrent-delete-node"},
     shard=10,
-    rule="seeded sequences of create_node/create_edge (directed, undirected, self-loops, parallel)/batch_create_edges/delete_edge/delete_node/update_node/update_edge on 1-8 nodes incl. missing ids, observed through the public reads after every operation; 2-8 threads behind a barrier on a shared engine (hub creations, creations + deletions/updates of overlapping setup edges, mixes with node deletions), observed at quiescence; batch_create_edges racing create_edge for edge ids (deterministic through the hook graph.batch_edge_ids, plus 2/4/8-thread stress; every id handed out must be unique); sequences on engines WITH Unique/Exists/PropertyType edge constraints and Unique/Exists node constraints in which many create_node/create_edge/batch_create_edges/update calls are refused (a refused call is the model's no-op `Rejected`; every call observed, including count_edges/count_nodes/edge_count/node_count and get_edge for every id against all_edges); traverse(start, direction, max_depth 0..4) from every node of graphs with several routes of different length to the same node (mirrored diamonds, chains with shortcuts, chords) against exactly the nodes at distance <= max_depth implied by all_edges; delete_node above the rayon threshold; kind `mixed`: a concurrent creation phase (deterministic, through the hook: the thread holding the smaller edge id is held at its first list while the other appends the larger id to the shared node's lists first, so those lists end up in NON-ascending order; plus 2/4/8-thread hub stress) followed by sequential delete_edge/delete_node with the structural oracle and the model compared after every step",
+    rule="seeded sequences of create_node/create_edge (directed, undirected, self-loops, parallel)/batch_create_edges/delete_edge/delete_node/update_node/update_edge on 1-8 nodes incl. missing ids, observed through the public reads after every operation; 2-8 threads behind a barrier on a shared engine (hub creations, creations + deletions/updates of overlapping setup edges, mixes with node deletions), observed at quiescence; batch_create_edges racing create_edge for edge ids (deterministic through the hook graph.batch_edge_ids, plus 2/4/8-thread stress; every id handed out must be unique); sequences on engines WITH Unique/Exists/PropertyType edge constraints and Unique/Exists node constraints in which many create_node/create_edge/batch_create_edges/update calls are refused (a refused call is the model's no-op `Rejected`; every call observed, including count_edges/count_nodes/edge_count/node_count and get_edge for every id against all_edges); traverse(start, direction, max_depth 0..4) from every node of graphs with several routes of different length to the same node (mirrored diamonds, chains with shortcuts, chords) against exactly the nodes at distance <= max_depth implied by all_edges; reopen sequences (GraphEngine::with_store on the same store after >= 10 / >= 100 edges and >= 10 nodes, then further creations); typed degrees (out/in/degree_by_type against the edge set and summing to the untyped degrees) in every observation; delete_node above the rayon threshold; kind `mixed`: a concurrent creation phase (deterministic, through the hook: the thread holding the smaller edge id is held at its first list while the other appends the larger id to the shared node's lists first, so those lists end up in NON-ascending order; plus 2/4/8-thread hub stress) followed by sequential delete_edge/delete_node with the structural oracle and the model compared after every step",
     trusted_base=COMMON_TB + [
         "modelled, not verified: the store as four association lists (node keys, out lists, in lists, edge records); one store.get/put/delete = one atomic step (metadata_slab takes the shard lock per call); with the per-key adjacency lock (commit c34d16e7) add_edge_to_list/remove_edge_from_list are single atomic steps; HashSet iteration order in delete_node is fixed to list order (the final state does not depend on it); property indexes, labels, constraints, timestamps and the legacy e* list format are outside the model",
         "guarded hook (commit 323c24cd, cfg(neumann_verif)): tensor_store::verif_hook::point(\"graph.adjacency_rmw\") between the read and the write-back of add_edge_to_list/remove_edge_from_list; the harness holds thread 1 there while thread 2 runs (deterministic schedules of C05_lost_update_refuted)",
